@@ -790,3 +790,44 @@ Proof.
   exists 1, 2, [10], [], (fun _ => 1). split; [intros b _; reflexivity|]. split; [intros b []|].
   intros (_ & H). specialize (H 10 (or_introl eq_refl)). discriminate.
 Qed.
+
+(* ---- pvCheckParams GENERATED (Gen_MemPool.pvCheckParams, MOMO_CHECK under the default check mode = assertion): it is Ok exactly when
+   the hand mirror PoolLayout.check_params holds; a failed MOMO_CHECK is Stuck (assertion), a too large block size is Exn (length_error).
+   So every theorem stated with `check_params C B A = true` is a theorem about the generated constructor check. ---- *)
+Lemma check_params_generated C B A :
+  Gen_MemPool.pvCheckParams C B A = if PoolLayout.check_params C B A then Ok tt
+    else if Gen_MemPoolConst.CheckBlockCount C && Gen_MemPoolConst.CheckBlockAlignment A && (0 <? B)
+            && ((C =? 1) || (B mod A =? 0)) && ((C =? 1) || (2 <=? B / A)) then Exn else Stuck.
+Proof.
+  unfold Gen_MemPool.pvCheckParams, PoolLayout.check_params, PoolLayout.max_overhead, Gen_MemPool.checkMode, Gen_MemPool.maxSize.
+  change (1 =? 1) with true. change (1 =? 2) with false. cbn [negb orb]. cbv iota.
+  rewrite Z.geb_leb, (Z.gtb_ltb B 0).
+  destruct (Gen_MemPoolConst.CheckBlockCount C); [|reflexivity].
+  destruct (Gen_MemPoolConst.CheckBlockAlignment A) eqn:EA; [|reflexivity].
+  destruct (0 <? B); [|reflexivity].
+  destruct ((C =? 1) || (B mod A =? 0)); [|reflexivity].
+  destruct ((C =? 1) || (2 <=? B / A)); [|reflexivity].
+  cbn [andb].
+  unfold Gen_MemPoolConst.CheckBlockAlignment in EA. apply andb_prop in EA. destruct EA as (E1 & E2).
+  apply Z.ltb_lt in E1. apply Z.leb_le in E2.
+  destruct (addend_facts A ltac:(lia)) as (Had & _ & _). rewrite addend_indep.
+  rewrite (wrapU_small 64 (3 * A)) by (rewrite two64; lia).
+  rewrite (wrapU_small 64 (addend A + 3 * A)) by (rewrite two64; lia).
+  rewrite (wrapU_small 64 (addend A + 3 * A + 2)) by (rewrite two64; lia).
+  change (wrapU 64 (2 * 8)) with 16. change (2 * 8) with 16.
+  rewrite (wrapU_small 64 (addend A + 3 * A + 2 + 16)) by (rewrite two64; lia).
+  rewrite (wrapU_small 64 (addend A + 3 * A + 2 + 16 + 2)) by (rewrite two64; lia).
+  rewrite (wrapU_small 64 (18446744073709551615 - _)) by (rewrite two64; lia).
+  destruct (B >? _); reflexivity.
+Qed.
+
+Theorem check_params_generated_no_wrap C B A : Gen_MemPool.pvCheckParams C B A = Ok tt ->
+  Gen_MemPool.pvGetBufferSize C B A =
+    C * B + addend A + (2 + (B / A) mod 2) * A + (if 3 <=? A then 0 else 2) + 18 /\
+  Gen_MemPool.pvGetBufferSize C B A < 2 ^ 64 /\ C * B <= Gen_MemPool.pvGetBufferSize C B A /\
+  Gen_MemPool.pvGetBufferSize1 B A = B + addend A + 2 /\ Gen_MemPool.pvGetBufferSize1 B A < 2 ^ 64.
+Proof.
+  intros H. apply check_params_no_wrap. rewrite check_params_generated in H.
+  destruct (PoolLayout.check_params C B A); [reflexivity|].
+  destruct (_ && _); discriminate.
+Qed.
